@@ -5,7 +5,7 @@ from __future__ import annotations
 import itertools
 from math import comb
 
-from vf.combi import combinations_range, digits
+from vf.combi import combinations_range, digits, fresh
 from vf.core import Job, new_result, viol
 from vf.guard import run as guarded_run
 
@@ -109,7 +109,7 @@ def _record(r, errs, label, nontrivial, wit, call):
 
 
 def run_one(r, n, arcs, s, t, order, all_keys, labels=None):
-    label = (lambda x: labels[x]) if labels else None
+    label = (lambda x: fresh(labels[x])) if labels else None
     g = build(n, arcs, order, all_keys, label)
     errs, lab_, nt = judge(g, s, t, n, arcs, label)
     wit = {"n": n, "arcs": [list(a) for a in arcs], "source": s, "sink": t, "order": order, "all_keys": all_keys, "labels": labels}
@@ -168,7 +168,7 @@ def _arclist_chunk(params, lo, hi):
     return r
 
 
-LABELS = [["s", "a", "b", "t"], [None, "x", (1, 2), 2.5], [10, "x", (1, 2), 2.5], [("n", 0), ("n", 1), ("n", 2), ("n", 3)], [3, 2, 1, 0]]
+LABELS = [["s", "a", "b", "t"], [None, "x", (1, 2), 2.5], [1000, "node-b", (1, (2, 3)), 2.5], [10, "x", (1, 2), 2.5], [("n", 0), ("n", 1), ("n", 2), ("n", 3)], [3, 2, 1, 0]]
 
 
 def _label_chunk(params, lo, hi):
@@ -199,7 +199,7 @@ def jobs(tier, seed):
         js.append(Job(f"n6_unit_{k}arcs", comb(30, k), _unit_chunk, (6, k, (0, 1) if k <= 5 else (0,)), describe="unit-capacity digraphs on 6 nodes, s=0,t=5 (contains the smallest witnesses of the residual-arc defect)"))
     for L in (1, 2, 3, 4):
         js.append(Job(f"arclists_len{L}", len(ARC_OPTS) ** L, _arclist_chunk, L, describe="ordered arc lists with parallel/anti-parallel arcs, caps {1,2}"))
-    nl = len(LABELS) if tier == "thorough" else 2  # quick: strings, and a mixed set in which node 0 is labelled None
+    nl = len(LABELS) if tier == "thorough" else 3  # quick: strings, a mixed set in which node 0 is labelled None, big int / long string / nested tuple
     js.append(Job("n4_labels_zero_caps", 3**12 * nl, _label_chunk, nl, describe="4 nodes, pair in {absent, cap0, cap1}, string/tuple/mixed labels, (s,t) rotating over (0,3),(3,0),(1,2) with the graph code"))
     # capacities {1,2} on 6 nodes: partial cancellation on an anti-parallel pair needs a 6-node, 8-arc network
     for k in (6, 7, 8):
@@ -211,6 +211,7 @@ def jobs(tier, seed):
             b = seed % blocks
             lo, hi = size * b // blocks, size * (b + 1) // blocks
             js.append(Job(f"n6_layered_{k}arcs_caps12_block{b}of{blocks}", hi - lo, _layered_chunk, (k, lo), describe="rotating block (VERIF_SEED) of the layered 6-node networks with capacities {1,2}"))
+    js.append(Job("n6_antiparallel_2out_2in_caps12", 36 * len(AP_MIDDLES) * 256, _antiparallel_chunk, None, describe="6 nodes, two source arcs, two sink arcs, four middle arcs with at least one anti-parallel pair, capacities {1,2}: the smallest shape in which an augmentation partially cancels flow on the opposite arc"))
     if tier == "thorough":
         js.append(Job("n4_caps_absent012_st03", 4**12 * 4, _n4_chunk, (None, 0, 1, 2), describe="adds zero capacities: 4^12 graphs x 12 (s,t)"))
         for k in range(8, 21):
@@ -249,6 +250,32 @@ def _layered_chunk(params, lo, hi):
     return r
 
 
+_MID = [(u, v) for u in (1, 2, 3, 4) for v in (1, 2, 3, 4) if u != v]
+AP_MIDDLES = [c for c in itertools.combinations(_MID, 4) if any((v, u) in c for (u, v) in c)]
+AP_ENDS = list(itertools.combinations((1, 2, 3, 4), 2))
+
+
+def _antiparallel_chunk(params, lo, hi):
+    """6 nodes, exactly two source arcs, exactly two sink arcs, four arcs among the middle nodes containing at least one
+    anti-parallel pair (the only place where an augmentation cancels flow), capacities {1,2} on all eight arcs:
+    index = ((si*6 + ti)*|AP_MIDDLES| + mi)*256 + capacity_code"""
+    r = new_result()
+    nm = len(AP_MIDDLES)
+    for idx in range(lo, hi):
+        code = idx % 256
+        k = idx // 256
+        mid = AP_MIDDLES[k % nm]
+        k //= nm
+        outs, ins = AP_ENDS[k // 6], AP_ENDS[k % 6]
+        pairs = sorted([(0, x) for x in outs] + [(x, 5) for x in ins] + list(mid))
+        arcs = [(u, v, 1 + (code >> i & 1)) for i, (u, v) in enumerate(pairs)]
+        run_one(r, 6, arcs, 0, 5, 0, False)
+        if len(r["violations"]) >= 40 or r["counters"]["hangs"] >= 2:
+            r["capped"] = True
+            break
+    return r
+
+
 def _unit8_block(params, lo, hi):
     return _unit_chunk((6, 8, (0,)), params + lo, params + hi)
 
@@ -258,6 +285,9 @@ def replay(v):
     r = new_result()
     labels = w.get("labels")
     if labels:
-        labels = [tuple(x) if isinstance(x, list) else x for x in labels]
+        def tup(x):
+            return tuple(tup(e) for e in x) if isinstance(x, list) else x
+
+        labels = [tup(x) for x in labels]
     run_one(r, w["n"], [tuple(a) for a in w["arcs"]], w["source"], w["sink"], w["order"], w["all_keys"], labels)
     return r["violations"][0] if r["violations"] else None
